@@ -599,6 +599,22 @@ func validateConds(p *pkg, fname string) []string {
 	return res
 }
 
+// validateCondExprs: the condition expressions of a validate function (same walk as validateConds)
+func validateCondExprs(f *ast.FuncDecl) []ast.Expr {
+	var res []ast.Expr
+	for _, st := range f.Body.List {
+		switch s := st.(type) {
+		case *ast.IfStmt:
+			res = append(res, s.Cond)
+		case *ast.SwitchStmt:
+			for _, cc := range s.Body.List {
+				res = append(res, cc.(*ast.CaseClause).List...)
+			}
+		}
+	}
+	return res
+}
+
 // does `update` trim keys / values?
 func trims(p *pkg, fname string) bool {
 	t := false
@@ -922,6 +938,26 @@ func main() {
 	o.Flows["src:faucetsc.setCostValue"] = []string{src(fc.fn("GlobalNode.setCostValue").Body)}
 	o.Flows["src:vestingsc.setCostValue"] = []string{src(vs.fn("config.setCostValue").Body)}
 	o.Flows["src:zcnsc.setCostValue"] = []string{src(zc.fn("GlobalNode.setCostValue").Body)}
+	// helpers called by validate conditions
+	o.Flows["src:faucetsc.toSeconds"] = []string{src(fc.fn("toSeconds").Body)}
+	o.Flows["src:vestingsc.toSeconds"] = []string{src(vs.fn("toSeconds").Body)}
+	o.Flows["src:storagesc.PriceRange.isValid"] = []string{src(st.fn("PriceRange.isValid").Body)}
+	// every function a validate condition calls must be one of the pinned helpers (fail closed)
+	for c, f := range map[string]*ast.FuncDecl{"minersc": mn.fn("GlobalNode.validate"), "storagesc": st.fn("Config.validate"), "faucetsc": fc.fn("GlobalNode.validate"),
+		"vestingsc": vs.fn("config.validate"), "zcnsc": zc.fn("GlobalNode.Validate")} {
+		for _, cond := range validateCondExprs(f) {
+			ast.Inspect(cond, func(n ast.Node) bool {
+				if call, ok := n.(*ast.CallExpr); ok {
+					switch nm := src(call.Fun); {
+					case nm == "toSeconds", strings.HasSuffix(nm, ".isValid"), nm == "len":
+					default:
+						die("%s validate: condition %q calls %s, which is not a pinned helper", c, src(cond), nm)
+					}
+				}
+				return true
+			})
+		}
+	}
 	o.Flows["src:config.StringToInterface"] = []string{src(cfg.fn("StringToInterface").Body)}
 	o.Flows["src:cstate.WithActivation"] = []string{src(load(filepath.Join(gosrc, "chaincore/chain/state")).fn("WithActivation").Body)}
 
